@@ -121,6 +121,18 @@ fn render_layout_node_content(
         return disabled;
     }
 
+    // `f()` / `-- note` / `;`: the parser gives a `;` that follows on a later line (and the
+    // comments before it) to the previous statement. No statement renderer expects comments
+    // after its last expression or `end`; they were dropped or glued in front of `end`. Such a
+    // statement is printed as written.
+    if let LayoutNodePlan::Syntax(syntax_plan) = node
+        && syntax_plan.kind != LuaSyntaxKind::Block
+        && let Some(syntax) = find_node_by_id(root, syntax_plan.syntax_id)
+        && statement_has_comment_before_detached_semicolon(&syntax)
+    {
+        return vec![ir::source_node_trimmed(syntax)];
+    }
+
     match node {
         LayoutNodePlan::Comment(comment) => {
             let Some(syntax) = find_node_by_id(root, comment.syntax_id) else {
@@ -156,6 +168,21 @@ fn render_layout_node_content(
             _ => render_unmigrated_syntax_leaf(root, syntax_plan.syntax_id),
         },
     }
+}
+
+/// The node ends `… <comment> ;` — its trailing `;` is separated from the code by a comment.
+fn statement_has_comment_before_detached_semicolon(node: &LuaSyntaxNode) -> bool {
+    let mut seen_semicolon = false;
+    for child in node.children_with_tokens().collect::<Vec<_>>().into_iter().rev() {
+        match child.kind() {
+            LuaKind::Token(LuaTokenKind::TkWhitespace | LuaTokenKind::TkEndOfLine) => {}
+            LuaKind::Token(LuaTokenKind::TkSemicolon) if !seen_semicolon => seen_semicolon = true,
+            LuaKind::Syntax(LuaSyntaxKind::Comment) => return seen_semicolon,
+            _ => return false,
+        }
+    }
+
+    false
 }
 
 fn render_format_disabled_layout_node(
